@@ -22,8 +22,8 @@ pub fn schedules(thorough: bool) -> Vec<&'static str> {
     ];
     if thorough {
         v.extend([
-            "5 0 * 8 *", "0 22 * * 1-5", "23 0-20/2 * * *", "5 4 * * sun", "0 0,12 1 */2 *", "0 4 8-14 * *", "59 * * * *", "* 23 * * *", "0 0 30 4,6,9,11 *", "0 0 31 1,3,5 0", "1 1 1 1 1", "*/59 */23 * * *", "0 0 * 2 *", "0 0 28-31 * *", "59 23 * * 6,7",
-            "0 0 29 2 1", "30 12 * * 0-7", "0 0 1 jan *", "* * 29 feb *", "0 0 * dec sat", "*/15 * 1 * *", "0 0 15 * mon", "59 23 28 2 *", "0 0 1 3 *", "0 1 * * *", "0 0 2-30/7 * *", "7 7 7 7 *", "0 0 * * 2,4", "*/30 */12 1,31 * *",
+            "5 0 * 8 *", "0 22 * * 1-5", "23 0,2,4,6,8,10,12,14,16,18,20 * * *", "5 4 * * sun", "0 0,12 1 */2 *", "0 4 8-14 * *", "59 * * * *", "* 23 * * *", "0 0 30 4,6,9,11 *", "0 0 31 1,3,5 0", "1 1 1 1 1", "*/59 */23 * * *", "0 0 * 2 *", "0 0 28-31 * *", "59 23 * * 6,7",
+            "0 0 29 2 1", "30 12 * * 0-7", "0 0 1 jan *", "* * 29 feb *", "0 0 * dec sat", "*/15 * 1 * *", "0 0 15 * mon", "59 23 28 2 *", "0 0 1 3 *", "0 1 * * *", "0 0 2,9,16,23,30 * *", "7 7 7 7 *", "0 0 * * 2,4", "*/30 */12 1,31 * *",
         ]);
     }
     v
